@@ -39,6 +39,10 @@ CLAIMED = {
             "index-group symbols (groups identified by their filling conditions) checked against the matmul contract; "
             "direction analysis of every transposition tuple; stage/position agreement of the single-operand planner "
             "and executor by construction/usage kinds; exception-type and normalisation discipline of tensordot's axes"),
+    "C12": ("4 C12", "structural and partially-evaluated checks of the front end's rewrites: statement-order and guard of "
+            "the fresh-symbol choice, partial evaluation of the ellipsis slice and of the interleaved index expressions, "
+            "sibling agreement of the implicit-output implementations, guard/direction of the single-operand fast paths, "
+            "def-use check that every label-carrying argument passes the one renaming map"),
     "C13": ("4 C13", "cache-key completeness/injectivity by def-use dependence, sibling TypeError fallback, purity and "
             "result-immutability of lru_cached parsers, array-taint of cached callables"),
     "C14": ("4 C14", "fingerprint determinism/coverage by dependence analysis, cache policy as CFG path properties, "
@@ -71,6 +75,7 @@ LEVEL_TEXT = {
     "C09": "necessary conditions of optimality only: each objective name is minimised with a step cost whose derived signature equals the objective's definition, the per-subgraph memo keeps the better entry, the sieve skips only on the new score against a cap that grows every round, every bipartition size is enumerated, search_outer is honoured; that the result is the global minimum is NOT decided",
     "C10": "conventions only: every emitted path is produced children-first, every implementation of the recycled-id format removes operands in descending order and appends the result, every single-assignment id counter starts at the number of inputs and advances once per emitted step on every path; equality of round trips is NOT decided",
     "C11": "layout agreement only: prepared operands, reshape groups and produced output order satisfy (B,M,K)x(B,K,N)->(B,M,N) for every equation, every transposition tuple has the right direction, planner and executor of single-operand einsum agree on stage order, tensordot accepts integer and negative axes; numerical equality with the reference is NOT decided",
+    "C12": "conventions only: fresh ellipsis symbols exclude every used symbol, ellipsis dimensions are right-aligned per operand and first in implicit outputs, implicit outputs are sorted singles (or first-appearance order for labels), the interleaved form pairs operand 2i with sublist 2i+1, single-operand fast paths are guarded and transpose in the right direction, one renaming map, ncon outputs ordered -1, -2, ...; conformance with numpy.einsum is NOT decided",
     "C13": "cache keys are complete and injective, memoised functions pure, cached callables stateless — for every cache site and call site in the package; numeric equality of cached and uncached results is not decided",
     "C14": "fingerprints are deterministic, covering and position-preserving, and the lookup/run/overwrite policy holds on every CFG path of the reusable optimizer; that a rebuilt tree equals the searched one is not decided",
     "C15": "no kill point can leave a partial file under an entry name because every durable write is temp-sibling + close + atomic replace, and a corrupt entry reads as absent; filesystem behaviour is assumed (POSIX rename)",
@@ -82,8 +87,6 @@ LEVEL_TEXT = {
 }
 
 NA = {
-    "C12": "conformance with numpy.einsum's grammar and broadcasting over all call forms is a specification question over "
-           "runtime strings and shapes; order determinism of implicit outputs is covered by C17-HASHORD",
 }
 
 
